@@ -1129,7 +1129,7 @@ def c14(ctx):
     import random
     ctx.rule = ("cases = each-class sweep + seeded random combinations over method x Accept x Sec-Fetch-Mode x Sec-Fetch-Dest x Referer x status x Content-Type x "
                 "Content-Disposition x body shape (<head> absent / at 0 / early / after 3 KB / straddling byte 1024 / twice / upper case / empty / 100 KB) x backend "
-                "write segmentation x banner on/off x shim on/off (domains exported by TLC from Inject.tla) through the real banner.Proxy + websockets.Proxy + "
+                "write segmentation x banner on/off x shim on/off x handler configuration (banner HTML / height / favicon URL / shim path) (domains exported by TLC from Inject.tla) through the real banner.Proxy + websockets.Proxy + "
                 "ReverseProxy(ShimBody) chain; distinct = class combinations")
     ctx.assumptions = ["'HTML document' = media type text/html or application/xhtml+xml; Content-Types that merely mention html are generated but not judged",
                        "'already framed' = Sec-Fetch-Mode nested-navigate, Sec-Fetch-Dest iframe, or a Referer with the same host and path"]
@@ -1161,6 +1161,13 @@ def c14(ctx):
             {"banner": True, "shim": False, "method": "GET", "accept": "html", "status": 200, "ctype": "html", "dispo": "attachment", "mode": "none", "dest": "none", "referer": "none", "body": "head-early"},
             {"banner": True, "shim": False, "method": "POST", "accept": "html", "status": 200, "ctype": "html", "dispo": "none", "mode": "none", "dest": "none", "referer": "none", "body": "head-early"},
             {"banner": True, "shim": False, "method": "GET", "accept": "html", "status": 404, "ctype": "html", "dispo": "none", "mode": "none", "dest": "none", "referer": "none", "body": "head-early"}]
+    # every configuration class with every kind of alteration the property allows, and with the framed request
+    for su in dom.get("setup", []):
+        base = {"setup": su, "method": "GET", "accept": "html", "status": 200, "ctype": "html", "dispo": "none", "mode": "none", "dest": "none", "referer": "none", "cenc": "none"}
+        must += [dict(base, banner=True, shim=True, body="head-early"), dict(base, banner=True, shim=False, body="no-head"),
+                 dict(base, banner=True, shim=True, body="head-early", referer="same"), dict(base, banner=True, shim=False, body="head-early", dest="iframe"),
+                 dict(base, banner=False, shim=True, body="head-early"), dict(base, banner=False, shim=True, body="two-heads", first="tiny"),
+                 dict(base, banner=True, shim=True, body="head-early", ctype="json", accept="json"), dict(base, banner=True, shim=True, body="head-early", cenc="gzip")]
     cs = class_cases(dom, 4000 if ctx.tier == "thorough" else 450, rnd, must)
     cases = []
     for i, c in enumerate(cs):
